@@ -81,7 +81,7 @@ def main():
         if m.get("property") == prop:
             seeded.append(os.path.dirname(mp))
     results = []
-    with cf.ThreadPoolExecutor(max_workers=8) as ex:
+    with cf.ThreadPoolExecutor(max_workers=12) as ex:
         futs = [ex.submit(st.run_variant, v, True) for v in vs] + [ex.submit(seeded_variant, d, prop) for d in seeded]
         for f in futs:
             results.append(f.result())
@@ -103,7 +103,7 @@ def main():
         out.append({"id": r["id"], "status": s, "expected_rule": r.get("expect", ""), "rules_fired": r.get("rules")})
     # specificity: behaviour-preserving refactorings written by others must not make this check fire
     bdirs = sorted(os.path.dirname(p) for p in glob.glob(os.path.join(V, "benign", "*", "patch.diff")))
-    with cf.ThreadPoolExecutor(max_workers=8) as ex:
+    with cf.ThreadPoolExecutor(max_workers=12) as ex:
         bres = list(ex.map(lambda d: benign_variant(d, prop), bdirs))
     b = {"applied": 0, "silent": 0, "known_alarm": 0, "alarm": 0, "skipped": 0}
     balarms = []
